@@ -113,6 +113,14 @@ CHECKS = {
             "buffers is compared rule by rule with the same rules compiled in groups.",
             "Trusted: hook H1 (compiler.c/arena.c, guard YARA_VERIF) only changes sizes; ASan's always-moving realloc.",
             "DESIGN.md section 2, C19"),
+    "C20": ("exploration",
+            "executable three-level environment model checked against recorded return codes and read-back scans of random operation histories",
+            "Random sequences of compiler/rule-set/scanner defines (valid, wrong type, unknown, duplicate), scanner "
+            "creations, scans and destroys are executed under ASan+UBSan+LSan; every return code and every scan's "
+            "probe-rule verdict vector is compared with a model of the compile-time -> rule-set -> per-scanner value "
+            "environment.",
+            "Trusted: the model in checks/c20.py; int<->bool cross definitions follow the code the implementation returns.",
+            "DESIGN.md section 2, C20"),
 }
 
 NOT_YET = "check not built yet in this round (planned in DESIGN.md section 2); nothing is claimed for it"
